@@ -80,6 +80,78 @@ pub fn linearizable(ops: &[LOp], init: Option<u32>) -> bool {
     false
 }
 
+/// All keys together. Linearizability is local (each key can be checked alone) only as far as
+/// REAL TIME orders the operations; the additional order of a connection's own pipelined requests
+/// relates operations on different keys, so a history can pass key by key and still have no
+/// single order (a batch that reads key a, then key b written later by another client, then key a
+/// again from a memo). `ops[i].0` is the key index. Returns `None` when the search exceeds
+/// `budget` states (inconclusive), otherwise whether a linearization exists.
+pub fn linearizable_all_keys(ops: &[(usize, LOp)], nkeys: usize, budget: usize) -> Option<bool> {
+    let n = ops.len();
+    if n == 0 {
+        return Some(true);
+    }
+    if n > 60 {
+        return None;
+    }
+    let full: u64 = (1u64 << n) - 1;
+    let pred: Vec<u64> = (0..n)
+        .map(|i| match ops[i].1.proc_seq {
+            Some((p, q)) => (0..n).filter(|j| matches!(ops[*j].1.proc_seq, Some((p2, q2)) if p2 == p && q2 < q)).fold(0u64, |m, j| m | (1 << j)),
+            None => 0,
+        })
+        .collect();
+    let mut memo: HashSet<(u64, Vec<Option<u32>>)> = HashSet::new();
+    let mut stack: Vec<(u64, Vec<Option<u32>>, usize)> = vec![(0, vec![None; nkeys], 0)];
+    let mut visited = 0usize;
+    while let Some((mask, state, next)) = stack.pop() {
+        if mask == full {
+            return Some(true);
+        }
+        if next == 0 {
+            if memo.contains(&(mask, state.clone())) {
+                continue;
+            }
+            visited += 1;
+            if visited > budget {
+                return None;
+            }
+        }
+        let mut minret = u64::MAX;
+        for (j, o) in ops.iter().enumerate() {
+            if mask & (1 << j) == 0 && o.1.ret < minret {
+                minret = o.1.ret;
+            }
+        }
+        let mut pushed = false;
+        let mut i = next;
+        while i < n {
+            let (k, o) = (&ops[i].0, &ops[i].1);
+            if mask & (1 << i) == 0 && o.inv < minret && pred[i] & !mask == 0 {
+                let cur = state[*k];
+                let (ok, nv) = match &o.kind {
+                    Kind::Write(v) => (true, Some(*v)),
+                    Kind::Read(r) => (*r == cur, cur),
+                    Kind::Del(b) => (*b == cur.is_some(), None),
+                };
+                if ok {
+                    let mut ns = state.clone();
+                    ns[*k] = nv;
+                    stack.push((mask, state.clone(), i + 1));
+                    stack.push((mask | (1 << i), ns, 0));
+                    pushed = true;
+                    break;
+                }
+            }
+            i += 1;
+        }
+        if !pushed {
+            memo.insert((mask, state));
+        }
+    }
+    Some(false)
+}
+
 #[cfg(test)]
 mod tests {
     use super::*;
@@ -105,6 +177,29 @@ mod tests {
         h.push(op(3, 20, Kind::Read(Some(2))));
         h.push(op(4, 21, Kind::Read(Some(1))));
         assert!(linearizable(&h, None));
+    }
+    #[test]
+    fn memo_across_keys() {
+        // B: SET a 2 [5,6]; SET b 9 [7,8] (after a's ack). A pipelines GET a, GET b, GET a (all
+        // invoked at 1..3, returned at 20..22) and gets 1, 9, 1: every key alone is fine, all
+        // keys together with A's own order are not
+        let p = |inv, ret, kind, q| LOp { inv, ret, kind, who: String::new(), proc_seq: Some((1, q)) };
+        let h = vec![
+            (0usize, op(0, 1, Kind::Write(1))),
+            (0, LOp { proc_seq: Some((2, 0)), ..op(5, 6, Kind::Write(2)) }),
+            (1, LOp { proc_seq: Some((2, 1)), ..op(7, 8, Kind::Write(9)) }),
+            (0, p(2, 20, Kind::Read(Some(1)), 0)),
+            (1, p(3, 21, Kind::Read(Some(9)), 1)),
+            (0, p(4, 22, Kind::Read(Some(1)), 2)),
+        ];
+        assert_eq!(linearizable_all_keys(&h, 2, 1_000_000), Some(false));
+        for k in 0..2 {
+            let one: Vec<LOp> = h.iter().filter(|(kk, _)| *kk == k).map(|(_, o)| o.clone()).collect();
+            assert!(linearizable(&one, None));
+        }
+        let mut ok = h.clone();
+        ok[5].1.kind = Kind::Read(Some(2));
+        assert_eq!(linearizable_all_keys(&ok, 2, 1_000_000), Some(true));
     }
     #[test]
     fn simple() {
